@@ -101,7 +101,7 @@ UINT32 of_hweight32_naive (UINT32 w)
 	INT32 j;
 	UINT32 res = 0;
 	UINT32 x = w;
-	for (j = 0; j < sizeof (UINT32); j++)
+	for (j = 0; j < 8 * sizeof (UINT32); j++)
 	{
 		res += x & 1;
 		x = x >> 1;
